@@ -218,6 +218,40 @@ theorem C15_bounded_wait (src : Nat → Res) (a : Nat) (s s' : St) (h : Reach sr
           exact Or.inr (share_at_waiting src s i j c false hlive hi hw hne)
       · simp [hc] at hs
 
+/-! ## why every path of every method has to close its reader -/
+
+/-- a consumer blocked in `Read` cannot help itself: every enabled step is another consumer's -/
+theorem C15_waiting_needs_peer (src : Nat → Res) (s s' : St) (i : Nat) (c : Con) (a : Act)
+    (hi : s.cons[i]? = some c) (hw : c.st = .waiting) (hs : step src s a = some s') : a.who ≠ i := by
+  intro e
+  cases a <;> simp only [Act.who] at e <;> subst e <;> simp [step, hi, hw] at hs
+
+/-- A consumer that walks away without `Close` (what `IntoWriter` would do on a writer error
+without its `defer r.Close()`) blocks its peers for ever: once the others all wait (or have
+closed), no step of any of them is enabled, and by `C15_close_once` the source stays open. -/
+theorem C15_leaver_blocks_peers (src : Nat → Res) (s : St) (i : Nat)
+    (hothers : ∀ (j : Nat) (c : Con), j ≠ i → s.cons[j]? = some c → c.st = .waiting ∨ c.st = .closed)
+    (a : Act) (ha : a.who ≠ i) : step src s a = none := by
+  cases a with
+  | readBegin j =>
+    simp only [Act.who] at ha
+    simp only [step]
+    cases hj : s.cons[j]? with
+    | none => rfl
+    | some c => rcases hothers j c ha hj with h | h <;> simp [h]
+  | readEnd j =>
+    simp only [Act.who] at ha
+    simp only [step]
+    cases hj : s.cons[j]? with
+    | none => rfl
+    | some c => rcases hothers j c ha hj with h | h <;> simp [h]
+  | close j =>
+    simp only [Act.who] at ha
+    simp only [step]
+    cases hj : s.cons[j]? with
+    | none => rfl
+    | some c => rcases hothers j c ha hj with h | h <;> simp [h]
+
 /-! ## the negotiation of `casClonedBuffer` -/
 
 theorem nreach_len (s : Neg) (h : NReach s) : 0 < s.hs.length := by
@@ -306,6 +340,10 @@ example : ∃ s, run exSrc (St.init 2) exActs = some s ∧ Reach exSrc 2 s ∧ s
 example : ∃ s, Reach exSrc 2 s ∧ (s.cons[0]?.map (·.st)) = some .waiting ∧ s.pending = 2 ∧ ¬ allClosed s := by
   refine ⟨_, reach_run exSrc 2 [.readBegin 0] _ _ Reach.init rfl, rfl, rfl, ?_⟩
   intro h; have := h 1 _ rfl; cases this
+
+/-- a state as in `C15_leaver_blocks_peers` is reachable: consumer 0 read one chunk and left, consumer 1 asks for the next -/
+example : ∃ s, Reach exSrc 1 s ∧ (s.cons.map (·.st)) = [.idle, .waiting] ∧ s.closes = 0 :=
+  ⟨_, reach_run exSrc 1 [.readBegin 0, .readBegin 1, .readEnd 0, .readBegin 1] _ _ Reach.init rfl, rfl, rfl⟩
 
 def nrun : Neg → List NAct → Option Neg
   | s, [] => some s
@@ -404,6 +442,7 @@ theorem C15_success_means_tasks_done (b : Buf) (m : Method) (hm : reads m = true
   cases m with
   | getSizeBytes => simp [reads] at hm
   | discard => simp [reads] at hm
+  | intoWriterFailing k => simp [reads] at hm
   | intoWriter => exact intoWriter_success b hok
   | readAt off len => exact readAt_success b off len hok he
   | toProto max => exact toByteSlice_success b max hok
